@@ -46,17 +46,21 @@ type l2Cfg struct {
 	FlushTimeout time.Duration `json:"flush_timeout_ns"`
 	Wait         bool          `json:"wait_for_result"`
 	Legacy       bool          `json:"deprecated_with_batcher"`
-	Producers    int           `json:"producers"`
-	PerProducer  int           `json:"requests_per_producer"`
-	Script       []int8        `json:"export_outcome_script"`  // per batch (cyclic): 0 ok, 1 error, 2 permanent error
-	DelayUS      []int         `json:"export_delay_us_script"` // per batch (cyclic): -1 yield, 0 none, >0 sleep
-	GenLean      bool          `json:"lean_payloads"`
-	Directed     string        `json:"directed,omitempty"`
-	MaxUnit      int           `json:"largest_indivisible_unit_bytes,omitempty"`
+	// QueueSizer is the unit of sending_queue::sizer. With sending_queue::batch it is also the unit of the batcher
+	// (= Sizer); the deprecated WithBatcher always merges and splits by items whatever the queue is sized in:
+	// "none" (WithBatcher alone), "requests", "items" or "bytes".
+	QueueSizer  string `json:"sending_queue_sizer"`
+	Producers   int    `json:"producers"`
+	PerProducer int    `json:"requests_per_producer"`
+	Script      []int8 `json:"export_outcome_script"`  // per batch (cyclic): 0 ok, 1 error, 2 permanent error
+	DelayUS     []int  `json:"export_delay_us_script"` // per batch (cyclic): -1 yield, 0 none, >0 sleep
+	GenLean     bool   `json:"lean_payloads"`
+	Directed    string `json:"directed,omitempty"`
+	MaxUnit     int    `json:"largest_indivisible_unit_bytes,omitempty"`
 }
 
 func (c *l2Cfg) class() string {
-	return fmt.Sprintf("%s/%s/min%s/max%s/wait=%v/legacy=%v/p%d", c.Signal, c.Sizer, bucket(c.Min), bucket(c.Max), c.Wait, c.Legacy, c.Producers)
+	return fmt.Sprintf("%s/%s/queue-%s/min%s/max%s/wait=%v/legacy=%v/p%d", c.Signal, c.Sizer, c.QueueSizer, bucket(c.Min), bucket(c.Max), c.Wait, c.Legacy, c.Producers)
 }
 
 func bucket(n int64) string {
@@ -198,6 +202,9 @@ func readGauge(tel *componenttest.Telemetry, name string) (int64, bool) {
 	return 0, false
 }
 
+// currentL2 is the configuration of the run in progress (for the child's memory guard).
+var currentL2 atomic.Pointer[l2Cfg]
+
 type l2Payload struct {
 	p      any
 	in     []canon.Record
@@ -213,9 +220,15 @@ func buildL2(rng *rand.Rand, safeSlack int) (*l2Cfg, [][]*l2Payload) {
 	if rng.Intn(10) < 3 {
 		cfg.Sizer = "bytes"
 	}
-	if cfg.Sizer == "items" && rng.Intn(7) == 0 {
+	cfg.QueueSizer = cfg.Sizer
+	if cfg.Sizer == "items" && rng.Intn(4) == 0 {
+		// deprecated batcher (items) behind a queue sized in any unit a validated configuration can have: a request
+		// sized by the queue in one unit is merged / split by the batcher in another
 		cfg.Legacy = true
-		cfg.Wait = true
+		cfg.QueueSizer = []string{"none", "requests", "items", "bytes", "bytes"}[rng.Intn(5)]
+		if cfg.QueueSizer == "none" {
+			cfg.Wait = true
+		}
 	}
 	cfg.Producers = 1 + pickWeighted(rng, []int{15, 25, 25, 20, 10, 5})
 	cfg.PerProducer = 1 + rng.Intn(6)
@@ -317,7 +330,7 @@ func directedL2(c *driver.Ctx) {
 		a, b := mk("p0r0", 250), mk("p1r0", 200, 200)
 		_, u := classify(s, "bytes", 0, []any{a.p, b.p})
 		cfg := &l2Cfg{Signal: "logs", Sizer: "bytes", Wait: true, Producers: 2, PerProducer: 1, FlushTimeout: 100 * time.Millisecond,
-			Min: a.sizeIn + 10, Max: int64(u) + 70, Script: []int8{1, 0, 0, 0, 0, 0, 0, 0}, DelayUS: []int{0}, MaxUnit: u, Directed: "c04e"}
+			QueueSizer: "bytes", Min: a.sizeIn + 10, Max: int64(u) + 70, Script: []int8{1, 0, 0, 0, 0, 0, 0, 0}, DelayUS: []int{0}, MaxUnit: u, Directed: "c04e"}
 		if cfg.Max < cfg.Min {
 			panic("directed L2 sizes do not work out")
 		}
@@ -334,7 +347,7 @@ func directedL2(c *driver.Ctx) {
 func runL2With(c *driver.Ctx, cfg *l2Cfg, payloads [][]*l2Payload, numConsumers int, ordered bool) (foreignError bool) {
 	s := signalByName(cfg.Signal)
 	sig := func(extra ...string) []string {
-		return append([]string{"signal", cfg.Signal, "sizer", cfg.Sizer, "wait", fmt.Sprint(cfg.Wait), "legacy", fmt.Sprint(cfg.Legacy)}, extra...)
+		return append([]string{"signal", cfg.Signal, "sizer", cfg.Sizer, "qsizer", cfg.QueueSizer, "wait", fmt.Sprint(cfg.Wait), "legacy", fmt.Sprint(cfg.Legacy)}, extra...)
 	}
 	witness := func(more map[string]any) map[string]any {
 		w := map[string]any{"config": cfg}
@@ -353,6 +366,7 @@ func runL2With(c *driver.Ctx, cfg *l2Cfg, payloads [][]*l2Payload, numConsumers 
 		return w
 	}
 	c.Eval()
+	currentL2.Store(cfg)
 
 	var opts []exporterhelper.Option
 	if cfg.Legacy {
@@ -365,6 +379,23 @@ func runL2With(c *driver.Ctx, cfg *l2Cfg, payloads [][]*l2Payload, numConsumers 
 			panic(err)
 		}
 		opts = append(opts, exporterhelper.WithBatcher(bc))
+		if cfg.QueueSizer != "none" {
+			qc := exporterhelper.NewDefaultQueueConfig()
+			switch cfg.QueueSizer {
+			case "requests":
+				qc.Sizer = exporterhelper.RequestSizerTypeRequests
+			default:
+				qc.Sizer = sizerType(cfg.QueueSizer)
+			}
+			qc.QueueSize = 1 << 40
+			qc.WaitForResult = cfg.Wait
+			qc.BlockOnOverflow = true
+			qc.NumConsumers = numConsumers
+			if err := qc.Validate(); err != nil {
+				panic(err)
+			}
+			opts = append(opts, exporterhelper.WithQueue(qc))
+		}
 	} else {
 		qc := exporterhelper.NewDefaultQueueConfig()
 		qc.Sizer = sizerType(cfg.Sizer)
@@ -652,6 +683,12 @@ func runL2With(c *driver.Ctx, cfg *l2Cfg, payloads [][]*l2Payload, numConsumers 
 		c.Inconclusive("l2-gauge-unreadable")
 	}
 	c.Observe("l2_runs", 1)
+	if cfg.Legacy {
+		c.Observe("l2_runs_deprecated_batcher_behind_queue_sized_in_"+cfg.QueueSizer, 1)
+		if cfg.Max > 0 && cfg.QueueSizer == "bytes" {
+			c.Observe("l2_runs_deprecated_batcher_max>0_behind_bytes_queue", 1)
+		}
+	}
 	c.Observe("l2_batches", int64(len(batches)))
 	c.Observe("l2_failed_batches", int64(failedBatches))
 	c.Observe("l2_requests", int64(cfg.Producers*cfg.PerProducer))
